@@ -1484,7 +1484,7 @@ def _human_quote_userinfo(s: Union[str, None]) -> Union[str, None]:
     return "".join(
         quote(c)
         if not c.isascii()
-        and any(d in unicodedata.normalize("NFKC", c) for d in "/?#@:")
+        and any(d in unicodedata.normalize("NFKC", c) for d in "/?#@:[]")
         else c
         for c in s
     )
